@@ -98,6 +98,8 @@ pub fn run(run: &Run) {
     vals.extend(u::huge_terms(4097).into_iter().filter(|r| r.size() > 1000 && !(r.tag == Tag::Product && r.kids.len() == 600)).map(V::term));
     vals.extend(u::u_sent(&fmts::han()));
     vals.extend(u::float_family());
+    // one name per identifier code point: a renderer that tidies, escapes or normalises names must stay one-to-one
+    vals.extend(u::name_code_points(&fmts::han(), tier).into_iter().map(|c| V::term(R::word(&u::cp_name(c)))));
     // rendering -> (class, example)
     let table: Mutex<HashMap<String, (CV, V)>> = Mutex::new(HashMap::new());
     let record = |s: String, v: &V| {
